@@ -134,8 +134,15 @@ func init() {
 		"Arithmetic level: for every bitsPerKey in 0..40 plus {64,100,1000} (covers every probe count k in 1..30, hence every BloomFalsePositive in (0,1)) and set sizes 1,2,3,7,64, every boundary-pattern hash (thorough: ALL 2^32 hash values for single-member sets at bitsPerKey 1,10,40) is added and must be reported by MayContain. End to end: every key of every table built by the SSTable enumeration, with bloom filters on, is found by DoesNotHave/Get.",
 		"Hash patterns are bit-boundary values in the quick tier; complete over 32-bit hashes only in the thorough tier.",
 		"nested enumeration over (bitsPerKey, set size, member hash)",
-		[]Stage{en("c19bloom", 16, 60, nil)},
-		[]Stage{en("c19bloom", 16, 900, prm("full32", true))})
+		[]Stage{en("c19bloom", 16, 60, nil), en("c18table", 16, 40, prm("bloom_only", true))},
+		[]Stage{en("c19bloom", 16, 900, prm("full32", true)), en("c18table", 16, 300, prm("bloom_only", true, "full_grid", true))})
+
+	planTable["C18"] = enumPlan("exploration",
+		"Every non-empty subset (255) of 8 internal keys over user keys {a,aa,aab,ab,b} (shared-prefix shapes that exercise the overlap/diff key reconstruction, two versions per key) x 4 value-size patterns around the block size (0, 10, blockSize-20, blockSize+20 bytes) with varying meta, user meta and expiry, built by the production Builder under block size {64,4096} x {none,snappy,zstd} x {plain,AES-128/192/256} x bloom {off,0.01} x 4 checksum modes x {file, in-memory} (quick: a rotating sixteenth of the 192-option grid per table, every option combination used by about 64 tables; thorough: the full grid plus a 65000-byte key and a 64 KiB value): forward and reverse iteration return exactly the input, Seek / SeekForPrev from every universe key and 36 gap probes land on the first entry >= / last entry <=, Rewind after exhaustion restarts, Smallest/Biggest/MaxVersion/KeyCount match, VerifyChecksum passes; ConcatIterator over every split of every subset into <= 3 contiguous tables (both directions, all seek targets); every byte of the data blocks flipped: a block-verifying table never returns an entry that was not stored.",
+		"Drives table.NewTableBuilder / CreateTable / OpenInMemoryTable / Table.NewIterator / NewConcatIterator directly.",
+		"nested enumeration; distinct = distinct (subset, value pattern) tables / splits / byte positions",
+		[]Stage{en("c18table", 16, 90, nil)},
+		[]Stage{en("c18table", 16, 900, prm("full_grid", true, "large", true))})
 
 	planTable["C21"] = enumPlan("exploration",
 		"Universe of 5 internal keys (two versions of one key, a key extending it with 0xFF, two more keys); 1..3 (quick) / 1..4 (thorough) input iterators, each ANY subset of the universe (empty inputs included), flat and nested merge trees, forward and reverse: Rewind and Seek to every universe key and 8 gap probes must yield the sorted union with exactly one copy per internal key, tagged with the earliest input holding it.",
